@@ -7,6 +7,8 @@ import GB.C19.Join
     disp x<raw query> p:<header lines>  => seen=m:<r.Header at the bridge> q=m:<r.URL.Query() at the bridge>
                                            h=http|ws|grpcweb|grpcws st=<status> sp=x<sub-protocol>|- rq=m:<query at the router>|-
     mdq  x<param> x<raw query>          => q=m:<url.Values before> md=m:<metadata> q2=m:<url.Values after> mod=0|1
+    tok  x<header name> x<token> l:<header lines>  => 0|1     (exported headerHasToken)
+    ctype x<Content-Type value>                    => 0|1     (exported isGRPCWebContentType)
     wsmd direct|bridge x<raw query> p:<header lines>
                                         => seen=m:<r.Header at the handler> q=m:<r.URL.Query() at the handler> st=<status>
                                            md=m:<incoming metadata the forwarder was handed>|-
@@ -117,6 +119,25 @@ def handle : Handler
           | none => if rq != "-" then s!"DIFF model=rq:-" else s!"OK nt b=disp-{ms}-{st}-ct:{ctClass hd.contentType}"
       | _, _ => "BAD disp md"
     | _, _, _, _, _, _ => "BAD disp fields"
+  | ["tok", _name, tokS, linesS], [out] =>
+    match parseHex tokS, (dropPrefix? linesS "l:").bind parseHexList with
+    | some token, some lines =>
+      let m := headerHasToken lines token
+      let high := lines.any (fun l => l.any (fun b => b ≥ 128))
+      if out != (if m then "1" else "0") then
+        s!"VIOL headerHasToken={out}, RFC 7230 token-list semantics (ASCII case only) say {if m then 1 else 0}"
+      else s!"OK nt b=tok-{if m then "has" else "hasnot"}-{if high then "nonascii" else "ascii"}"
+    | _, _ => "BAD tok line"
+  | ["ctype", ctS], [out] =>
+    match parseHex ctS with
+    | some ct =>
+      let m := isGRPCWebContentType ct
+      let cls := ctClass [ct]
+      if out != (if m then "1" else "0") then
+        (if cls == "open" then s!"DIFF model={if m then 1 else 0}"
+         else s!"VIOL isGRPCWebContentType={out}, the media type says {if m then 1 else 0}")
+      else s!"OK nt b=ctype-{cls}-{if ct.any (fun b => b ≥ 128) then "nonascii" else "ascii"}"
+    | none => "BAD ctype line"
   | ["wsmd", via, _rq, _lines], outs =>
     if outs.head? == some "rejected" then "OK b=wsmd-rejected-by-net/http" else
     match field outs "seen", field outs "q", field outs "st", field outs "md" with
